@@ -125,7 +125,9 @@ fn seq_oracle() -> SeqOracle {
                     let (got, spec) = model_read(a, k);
                     let want_expiry = if rm { None } else { ttl.map(|t| now + t) };
                     if spec && got != c.value {
-                        out.push(Finding::new("accepted-upsert-lost", format!("upsert:accepted-but-unreadable:{}-key", state), format!("{} (shape {}) was acknowledged Accepted on a key that read as absent ({}), but the key still reads {:?} (entry {:?})", c.op.short(), shape, state, got, a.entry(k))));
+                        // the recorded defect leaves the key unreadable; serving some other value is a different bug
+                        let what = if got.is_none() { "unreadable" } else { "other-value-served" };
+                        out.push(Finding::new("accepted-upsert-lost", format!("upsert:accepted-but-{}:{}-key", what, state), format!("{} (shape {}) was acknowledged Accepted on a key that read as absent ({}), but the key still reads {:?} (entry {:?})", c.op.short(), shape, state, got, a.entry(k))));
                     } else if let Some(n) = a.entry(k) {
                         if n.3 != want_expiry {
                             out.push(Finding::new("as-put-expiry", format!("upsert:as-put-expiry-differs:{}-key", state), format!("{} on an absent-reading key: expiry {:?}, the corresponding put gives {:?}", c.op.short(), n.3.map(|x| x - T0_MS), want_expiry.map(|x| x - T0_MS))));
